@@ -39,6 +39,17 @@ def run(ctx):
     # been publishing the same Unknown record for a while), and only then a worker dies
     for site, action in (("poller.loop", "panic"), ("poller.recv", "return"), ("writer.recv", "panic"), ("writer.done", "return")):
         plans.append({"binary": "hooked", "site": site, "hit": 14 if site.startswith("poller") else 14, "action": action, "chronyd": "answer", "chronyd_script": [[2.6, "absent"]], "fire_within_s": 60})
+    # environment: somebody else (a second instance, a backup tool, a previous instance not yet gone) holds a
+    # lock on the segment file for the whole run; a worker then dies
+    for lock in ("flock", "fcntl"):
+        for site, action in (("poller.loop", "panic"), ("poller.recv", "return"), ("poller.send.pre", "panic")):
+            for pre in ("valid", "absent"):
+                plans.append({"binary": "hooked", "site": site, "hit": 2, "action": action, "chronyd": "absent", "segment_lock": lock, "segment_before": pre, "fire_within_s": 15})
+    if not q:
+        # one worker stalls (alive) for 140 s while the other keeps working: nobody has died, nothing has to
+        # happen; but if a worker does die of it (say, of a mailbox that filled up), the daemon must exit
+        for site in ("writer.recv", "poller.loop"):
+            plans.append({"binary": "hooked", "site": site, "hit": 2, "action": "stall140000", "chronyd": "absent", "natural": "worker-stalls-140s", "optional_fault": True, "fire_within_s": 175})
     # natural faults, release binary as shipped
     plans.append({"binary": "release", "natural": "shm-is-directory", "chronyd": "absent", "fire_within_s": 10})
     plans.append({"binary": "release", "natural": "shm-is-directory", "chronyd": "answer", "fire_within_s": 10})
@@ -55,7 +66,7 @@ def run(ctx):
         outs.append(o)
         b = hooked if pl["binary"] == "hooked" else relbin
         cmds.append(sandbox.wrap(["python3", os.path.join(VERIF, "vlib", "nsrun.py"), "c15", b, o, pf]))
-    res = ctx.run_parallel(cmds, 320, jobs=NPROC * 2)
+    res = ctx.run_parallel(cmds, 320, jobs=NPROC * 3)
     viol, samples = [], []
     table = {}
     lat = []
@@ -68,8 +79,12 @@ def run(ctx):
             continue
         ob = json.load(open(o))[0]
         name = ob.get("site") or ob.get("natural")
-        key = "%s|%s|hit%s|chronyd-%s%s" % (name, ob.get("action", "natural"), ob.get("hit", "-"), ob["chronyd"], "-then-absent" if ob.get("chronyd_script") else "")
+        key = "%s|%s|hit%s|chronyd-%s%s%s" % (name, ob.get("action", "natural"), ob.get("hit", "-"), ob["chronyd"], "-then-absent" if ob.get("chronyd_script") else "",
+                                              ("|segment-%s-%s-by-another-process" % (pl.get("segment_before"), pl["segment_lock"])) if pl.get("segment_lock") else "")
         if not ob["fired"]:
+            if pl.get("optional_fault"):
+                table[key] = "no worker died of it (none has to)"
+                continue
             not_fired += 1
             table[key] = "fault never fired"
             continue
